@@ -34,6 +34,7 @@
 #include <mesh.h>
 #include <sensors.h>
 #include <assemble.h>
+#include <gain.h>
 #include <integrator.h>
 #undef private
 #undef protected
@@ -211,14 +212,25 @@ static Wire geom_describe(size_t i) {
     o.push_back(marks ? headmat_fp(g) : 0);
     return o;
 }
-static Wire run_geom(Reader& r) {
+static Wire geom_fresh_refinalize(size_t i) {     // load entry i into a fresh object, finalize() again: observation
     Geometry g;
+    const ll st = geom_do(g,i);
+    if (!(st==0 && catalog().G.at(i)[0]=="G")) return geom_obs(-1,g);
+    const ll st2 = guarded_om([&]() { g.finalize(); });
+    return geom_obs(st2,g);
+}
+static Wire run_geom(Reader& r) {
+    Geometry g; bool lastfin = false;
     const size_t nops = r.n(); Wire out;
     for (size_t q=0;q<nops;++q) {
         const size_t o = r.n(), i = r.n();
         Wire ob;
-        if (o==0) { const ll st = geom_do(g,i); ob = geom_obs(st,g); }
+        if (o==0) { const ll st = geom_do(g,i); lastfin = (st==0 && catalog().G.at(i)[0]=="G"); ob = geom_obs(st,g); }
         else if (o==1) ob = geom_obs((g.meshes().empty() || g.domains().empty() || !g.has_conductivities()) ? -1 : headmat_fp(g),g);
+        else if (o==3) {   // a second finalize() on an object whose last load reached finalize
+            if (!lastfin) ob = geom_obs(-1,g);
+            else { const ll st = guarded_om([&]() { g.finalize(); }); ob = geom_obs(st,g); }
+        }
         else {      // another assembly on the same geometry: one dipole at the centroid of the vertices
             guarded_om([&]() {
                 if (g.vertices().empty()) return;
@@ -280,7 +292,22 @@ static Wire mesh_obs(ll st,const Mesh& m) {
         ll a[3] = { pos.at(&t.vertex(0)),pos.at(&t.vertex(1)),pos.at(&t.vertex(2)) }; std::sort(a,a+3);
         o.insert(o.end(),a,a+3);
     }
+    // not modelled, compared with a fresh-object load: number of distinct vertices and what Mesh::save writes
+    std::set<const Vertex*> distinct(m.vertices().begin(),m.vertices().end());
+    o.push_back((ll)distinct.size());
+    ll sh = 0;
+    if (!m.vertices().empty()) {
+        const ll st2 = guarded_om([&]() { m.save("msave.tri"); });
+        std::ifstream in("msave.tri",std::ios::binary); std::stringstream ss; ss << in.rdbuf(); const std::string txt = ss.str();
+        sh = st2 ? -st2 : fold(fnv(txt.data(),txt.size()));
+    }
+    o.push_back(sh);
     return o;
+}
+static Wire mesh_fresh(size_t i) {     // full observation of entry i loaded into a fresh Mesh
+    Mesh m;
+    const ll st = guarded_om([&]() { m.load(catalog().M.at(i)[1],false); });
+    return mesh_obs(st,m);
 }
 static Wire mesh_describe(size_t i) {
     Mesh m;
@@ -328,6 +355,67 @@ static Wire run_linop(Reader& r,bool describe) {
     return out;
 }
 
+// ---- machine 6: computations on shared objects (Head1): every operand is const for every operation
+struct Shared {
+    Geometry geo; SymMatrix H,Hinv; Matrix dip,DSM,h2meg,ds2meg,rhsM; SparseMatrix v2eeg; Vector rhsV; Sensors eeg,meg;
+    Shared() {
+        const auto& t = catalog().G.at(0); geo.load(t[1],t[2]);
+        const std::string d = t[1].substr(0,t[1].find_last_of('/'));
+        H = HeadMat(geo,Integrator(3,0,0.005)); Hinv = H.inverse();
+        dip.load((d+"/Head1.dip").c_str()); DSM = DipSourceMat(geo,dip,"");
+        eeg.load((d+"/Head1.eeg").c_str(),'t'); meg.load((d+"/Head1.squids").c_str(),'t');
+        v2eeg = Head2EEGMat(geo,eeg); h2meg = Head2MEGMat(geo,meg); ds2meg = DipSource2MEGMat(dip,meg);
+        rhsM = Matrix(H.nlin(),2); rhsV = Vector(H.nlin());
+        for (size_t i=0;i<H.nlin();++i) { rhsV(i) = 1.0+0.25*(i%7); rhsM(i,0) = (i%5)-2.0; rhsM(i,1) = 1.0/(1.0+i); }
+    }
+    ll sparse_fp(const SparseMatrix& p) const { ll h = 1469598103934665603ULL; for (auto it=p.begin();it!=p.end();++it) { double v = it->second; ll k[2] = { (ll)it->first.first,(ll)it->first.second }; h = fnv(k,sizeof k,h); h = fnv(&v,sizeof v,h); } return fold(h); }
+    std::vector<ll> snapshot() {
+        Wire g = geom_obs(0,geo); ll gh = fnv(g.data(),g.size()*sizeof(ll));
+        for (const auto& v : geo.vertices()) { double c[3] = { v.x(),v.y(),v.z() }; gh = fnv(c,sizeof c,gh); unsigned ix = v.index(); gh = fnv(&ix,sizeof ix,gh); }
+        for (const auto& m : geo.meshes()) { bool f[3] = { m.outermost(),m.current_barrier(),m.isolated() }; gh = fnv(f,sizeof f,gh); for (const auto& tr : m.triangles()) { unsigned ix = tr.index(); gh = fnv(&ix,sizeof ix,gh); } }
+        return { fold(gh),mhash(H.data(),H.size()),mhash(Hinv.data(),Hinv.size()),mhash(dip.data(),dip.size()),mhash(DSM.data(),DSM.size()),
+                 sparse_fp(v2eeg),mhash(h2meg.data(),h2meg.size()),mhash(ds2meg.data(),ds2meg.size()),mhash(rhsM.data(),rhsM.size()),mhash(rhsV.data(),rhsV.size()),
+                 mhash(eeg.m_positions.data(),eeg.m_positions.size()),mhash(meg.m_positions.data(),meg.m_positions.size()) };
+    }
+    ll op(size_t k) {
+        const Integrator I(3,0,0.005);
+        switch (k) {
+            case 0: { const SymMatrix X = HeadMat(geo,I); return mhash(X.data(),X.size()); }
+            case 1: { Matrix B(rhsM,DEEP_COPY); const SymMatrix& cH = H; const Matrix X = cH.solveLin(B); return mhash(X.data(),X.size()); }
+            case 2: { const SymMatrix& cH = H; const Vector X = cH.solveLin(rhsV); return mhash(X.data(),X.size()); }
+            case 3: { const SymMatrix& cH = H; const SymMatrix X = cH.inverse(); return mhash(X.data(),X.size()); }
+            case 4: { const Vector X = H*rhsV; return mhash(X.data(),X.size()); }
+            case 5: { const GainEEG X(Hinv,DSM,v2eeg); return mhash(X.data(),X.size()); }
+            case 6: { const GainEEGadjoint X(geo,dip,H,v2eeg); return mhash(X.data(),X.size()); }
+            case 7: { const GainMEGadjoint X(geo,dip,H,h2meg,ds2meg); return mhash(X.data(),X.size()); }
+            case 8: { const GainEEGMEGadjoint X(geo,dip,H,v2eeg,h2meg,ds2meg); ll h = fnv(X.EEGleadfield.data(),X.EEGleadfield.size()*sizeof(double)); return fold(fnv(X.MEGleadfield.data(),X.MEGleadfield.size()*sizeof(double),h)); }
+            case 9: { const GainMEG X(Hinv,DSM,h2meg,ds2meg); return mhash(X.data(),X.size()); }
+            case 10: { const Matrix X = DipSourceMat(geo,dip,""); return mhash(X.data(),X.size()); }
+            case 11: { const SparseMatrix X = Head2EEGMat(geo,eeg); return sparse_fp(X); }
+            case 12: { const Matrix X = Head2MEGMat(geo,meg); return mhash(X.data(),X.size()); }
+            case 13: { const Matrix X = DipSource2MEGMat(dip,meg); return mhash(X.data(),X.size()); }
+            case 14: { const Matrix X = Hinv*DSM; return mhash(X.data(),X.size()); }
+            default: throw Reader::Malformed();
+        }
+    }
+};
+static const size_t N_COMPUTE_OPS = 15;
+// c17 6 nops k... : per operation (result fingerprint or -status, bit mask of the shared operands whose bits changed)
+static Wire run_compute(Reader& r) {
+    Shared S;
+    const std::vector<ll> ref = S.snapshot();
+    Wire out{ (ll)ref.size() }; out.insert(out.end(),ref.begin(),ref.end());
+    const size_t nops = r.n();
+    for (size_t q=0;q<nops;++q) {
+        const size_t k = r.n(); ll fp = 0;
+        const ll st = guarded_om([&]() { fp = S.op(k); });
+        const std::vector<ll> now = S.snapshot(); ll mask = 0;
+        for (size_t i=0;i<ref.size();++i) if (now[i]!=ref[i]) mask |= (1LL<<i);
+        out.push_back(st ? -st : fp); out.push_back(mask);
+    }
+    return out;
+}
+
 static Wire dispatch(const std::string& comp,Reader& r) {
     if (comp!="c17") return Wire{-1};
     const size_t m = r.n();
@@ -344,6 +432,9 @@ static Wire dispatch(const std::string& comp,Reader& r) {
         case 30: return run_sens(r,true);
         case 4: return run_mesh(r);
         case 40: return mesh_describe(r.n());
+        case 41: return mesh_fresh(r.n());
+        case 21: return geom_fresh_refinalize(r.n());
+        case 6: return run_compute(r);
         case 5: return run_linop(r,false);
         case 50: return run_linop(r,true);
         case 10: {  // write the fixed object of kind k with the explicit format g into w.out
